@@ -1,6 +1,7 @@
 package zv
 
 import (
+	"os"
 	"fmt"
 	"go/constant"
 	"go/token"
@@ -31,7 +32,7 @@ func checkC18(c *Ctx) {
 	c.Rule("R18.1", "kind table: accessor ↔ kind ↔ constructor type; fallback; empty-Attr first", 4)
 	c.Rule("R18.2", "level map: descending thresholds with non-increasing zap levels; shared by Enabled and Handle", 2)
 	c.Rule("R18.3", "slog.Handler contract clauses: empty group name, empty group attribute, inline group", 2)
-	c.Rule("R18.4", "Handle and WithAttrs agree on the emission of pending groups", 3)
+	c.Rule("R18.4", "Handle and WithAttrs agree on the emission of pending groups", 2)
 	c.Rule("R18.5", "WithAttrs/WithGroup are pure derivations", 3)
 	c.Rule("R18.6", "a record is handled iff Core.Check accepts the mapped level", 2)
 
@@ -78,12 +79,21 @@ func checkC18(c *Ctx) {
 		kname := kinds[kv]
 		seqs, trunc := ConcPaths(conv, ConcCfg{
 			Conc: func(d string) (int64, bool) {
-				if d == "Kind("+an+".Value)" {
+				d = strings.ReplaceAll(d, "var "+an, an)
+				if d == "Kind("+an+".Value)" || d == "Kind(Resolve("+an+".Value))" {
 					return kv, true
 				}
 				return 0, false
 			},
 			Event: func(in ssa.Instruction, st *ConcState) string {
+				if cl, ok := in.(*ssa.Call); ok && len(st.cfg.stackDepth()) == 0 {
+					if IsCallTo(cl, "(log/slog.Value).Resolve") {
+						return "resolved"
+					}
+					if IsCallTo(cl, "(log/slog.Value).Kind") {
+						return "kind"
+					}
+				}
 				r, ok := in.(*ssa.Return)
 				if !ok {
 					return ""
@@ -99,7 +109,7 @@ func checkC18(c *Ctx) {
 				}
 				var ad []string
 				for _, a := range Args(cl) {
-					ad = append(ad, st.Desc(a))
+					ad = append(ad, strings.ReplaceAll(st.Desc(a), "var "+an, an))
 				}
 				key := d + "(" + strings.Join(ad, " , ") + ")"
 				anyCall[key] = cl
@@ -127,7 +137,7 @@ func checkC18(c *Ctx) {
 				}
 				switch x := cond.(type) {
 				case *ssa.Call:
-					d := st.Desc(x)
+					d := strings.ReplaceAll(st.Desc(x), "var "+an, an)
 					switch {
 					case strings.HasPrefix(d, "Equal("+an+", "):
 						return tf("empty", pol)
@@ -135,7 +145,7 @@ func checkC18(c *Ctx) {
 						return tf("zero", pol)
 					}
 				case *ssa.BinOp:
-					l, r, op := st.Desc(x.X), st.Desc(x.Y), x.Op
+					l, r, op := strings.ReplaceAll(st.Desc(x.X), "var "+an, an), strings.ReplaceAll(st.Desc(x.Y), "var "+an, an), x.Op
 					if r == an+".Key" || r == "len(Group("+an+".Value))" {
 						l, r, op = r, l, swapOp(op)
 					}
@@ -167,6 +177,13 @@ func checkC18(c *Ctx) {
 			ret := ""
 			for _, e := range ev {
 				switch {
+				case e == "kind":
+					facts["kind-read"] = true
+				case e == "resolved":
+					// the value was resolved before its kind was read: it can no longer be a LogValuer
+					if kname == "KindLogValuer" && !facts["kind-read"] {
+						infeasible = true
+					}
 				case strings.HasPrefix(e, "ret "):
 					ret = strings.TrimPrefix(e, "ret ")
 				case strings.HasPrefix(e, "cond("):
@@ -752,10 +769,18 @@ func c18EmitProtocol(c *Ctx, rule string) {
 			if f.Pkg == nil || f.Pkg.Pkg.Path() != SlogPath || f == hd || f == wa || f.Parent() != nil {
 				return
 			}
+			ns, conv := false, false
 			for _, cl := range Calls(f) {
 				if IsCallTo(cl, "go.uber.org/zap.Namespace") {
-					emitters[f] = true
+					ns = true
 				}
+				if IsCallTo(cl, SlogPath+".convertAttrToField") {
+					conv = true
+				}
+			}
+			// a helper whose whole job is to append the namespaces (one that also converts attributes is explored inline)
+			if ns && !conv {
+				emitters[f] = true
 			}
 		})
 		for f := range emitters {
@@ -766,6 +791,41 @@ func c18EmitProtocol(c *Ctx, rule string) {
 				}
 			}
 			ok, over, why := LoopVisitsAll(f, ns)
+			if !strings.HasSuffix(over, ".groups") {
+				// the groups handed in by the callers
+				for _, p := range f.Params {
+					if p.Name() == over {
+						Bound(func() { over = Desc(p) })
+						if !strings.HasSuffix(over, ".groups") {
+							// every call site passes the receiver's pending groups (possibly read into a local first)
+							all := len(sitesOf(f)) > 0
+							for _, site := range sitesOf(f) {
+								for ai, a := range Args(site) {
+									if ai < len(f.Params) && f.Params[ai] == p {
+										d := Desc(a)
+										// a local captured by the attribute callback: what was stored in it
+										if u, ok := Strip(a).(*ssa.UnOp); ok {
+											if fv, ok := u.X.(*ssa.FreeVar); ok {
+												if b, ok := c18Binding(fv).(*ssa.Alloc); ok {
+													if sv := singleStoreLoose(b); sv != nil {
+														d = Desc(sv)
+													}
+												}
+											}
+										}
+										if !strings.HasSuffix(d, ".groups") {
+											all = false
+										}
+									}
+								}
+							}
+							if all {
+								over = "h.groups"
+							}
+						}
+					}
+				}
+			}
 			c.Check(ok && strings.HasSuffix(over, ".groups"), rule, f.String(), "emits-every-group", f.Pos(), "the emitter appends one Namespace field for every pending group, in order, no early exit (ranges over %s%s)", over, why)
 		}
 		for _, fn := range []*ssa.Function{hd, wa} {
@@ -871,6 +931,37 @@ func c18EmitProtocol(c *Ctx, rule string) {
 						return tf("real", pol == (bo.Op == token.NEQ))
 					}
 					x, y, op := st.Desc(bo.X), st.Desc(bo.Y), bo.Op
+					// len(<something that on this path holds the receiver's pending groups>)
+					lenOfGroups := func(v ssa.Value) bool {
+						lc, ok := Strip(v).(*ssa.Call)
+						if !ok || CallBuiltin(lc) != "len" {
+							return false
+						}
+						a := lc.Call.Args[0]
+						for k := 0; k < 8; k++ {
+							if st.Desc(a) == rn+".groups" {
+								return true
+							}
+							nx := st.Step(a)
+							if nx == nil {
+								return false
+							}
+							a = nx
+						}
+						return false
+					}
+					if os.Getenv("ZV_DEBUG") != "" {
+						if lc, ok := Strip(bo.X).(*ssa.Call); ok && CallBuiltin(lc) == "len" {
+							a := lc.Call.Args[0]
+							fmt.Println("LEN", st.Desc(a), "step:", st.Step(a), lenOfGroups(bo.X))
+						}
+					}
+					if lenOfGroups(bo.X) {
+						x = "len(" + rn + ".groups)"
+					}
+					if lenOfGroups(bo.Y) {
+						y = "len(" + rn + ".groups)"
+					}
 					if y == "len("+rn+".groups)" && x == "0" {
 						x, y, op = y, x, swapOp(op)
 					}
@@ -892,8 +983,36 @@ func c18EmitProtocol(c *Ctx, rule string) {
 			}
 			var bad []string
 			nEmit := 0
+			if os.Getenv("ZV_DEBUG") != "" {
+				for _, sq := range seqs {
+					fmt.Println("SEQ", fn.Name(), sq)
+				}
+			}
+			// prefixes after which some path emits namespaces one by one (an inline loop over the pending groups): a path with
+			// the same prefix and no emission is that loop running zero times, which "groups are pending" excludes
+			emitsAfter := map[string]bool{}
 			for _, sq := range seqs {
 				ev := strings.Split(sq, " ; ")
+				for i, e := range ev {
+					if e == "ns" && i > 0 && ev[i-1] != "ns" {
+						emitsAfter[strings.Join(ev[:i], " ; ")] = true
+					}
+				}
+			}
+			for _, sq := range seqs {
+				ev := strings.Split(sq, " ; ")
+				// the pending groups do not change while one record / one attribute list is processed
+				pendT, pendF, zeroIter := false, false, false
+				for i, e := range ev {
+					pendT = pendT || e == "pending=T"
+					pendF = pendF || e == "pending=F"
+					if e == "real=T" && i+1 < len(ev) && ev[i+1] != "ns" && ev[i+1] != "emit" && emitsAfter[strings.Join(ev[:i+1], " ; ")] {
+						zeroIter = true
+					}
+				}
+				if pendT && pendF || zeroIter {
+					continue // not a path of the program
+				}
 				emitted, inAttr, emitThis, addedThis := false, false, false, false
 				facts := map[string]bool{}
 				cleared := false
